@@ -5,25 +5,43 @@ import itertools, threading
 import z3
 
 
-def cli_check(solver, timeout_ms, want_model=False, opts=()):
-    """decide the solver's assertions with the z3 command-line binary under a hard wall-clock limit
-    -> ('sat'|'unsat'|'unknown', model_text)"""
-    import subprocess, tempfile, os
+def cli_check(solver, timeout_ms, want_model=False, opts=(), stage="cli"):
+    """decide the solver's assertions with the z3 command-line binary under a resource limit (deterministic) and a
+    wall-clock safety net -> ('sat'|'unsat'|'unknown', model_text)"""
+    import subprocess, tempfile, os, time, re
+    from . import budget
     txt = solver.to_smt2()
     if want_model:
         txt += "\n(get-model)\n"
-    secs = max(1, int(timeout_ms / 1000))
+    lim = budget.rl(timeout_ms, stage)
+    secs = max(1, int(budget.wall_ms(timeout_ms, stage) / 1000))
     with tempfile.NamedTemporaryFile("w", suffix=".smt2", delete=False, dir=os.environ.get("TMPDIR", "/tmp")) as f:
         f.write(txt)
         path = f.name
+    t0 = time.time()
     try:
-        p = subprocess.run(["z3-new", f"-T:{secs}"] + list(opts) + [path], capture_output=True, text=True, timeout=secs + 5)
+        cmd = ["z3-new", f"-T:{secs}", f"rlimit={lim}"] + (["-st"] if budget.LOG else []) + list(opts) + [path]
+        p = subprocess.run(cmd, capture_output=True, text=True, timeout=secs + 10)
         out = p.stdout.strip()
         first = out.splitlines()[0].strip() if out else "unknown"
+        if first == "timeout":
+            budget.wall_hit(stage)
         if first not in ("sat", "unsat"):
             first = "unknown"
-        return first, (out[len(first):].strip() if want_model and first == "sat" else "")
-    except Exception:  # noqa (timeout / missing binary)
+        if budget.LOG:
+            m = re.search(r":rlimit-count\s+(\d+)", out)
+            budget.log(stage, first, int(m.group(1)) if m else 0, time.time() - t0, lim)
+        mt = ""
+        if want_model and first == "sat":
+            mt = out[len(first):].strip()
+            k = mt.rfind("(:")            # strip the statistics block
+            if budget.LOG and k > 0:
+                mt = mt[:k]
+        return first, mt
+    except subprocess.TimeoutExpired:
+        budget.wall_hit(stage)
+        return "unknown", ""
+    except Exception:  # noqa (missing binary ...)
         return "unknown", ""
     finally:
         try:
@@ -32,12 +50,10 @@ def cli_check(solver, timeout_ms, want_model=False, opts=()):
             pass
 
 
-def guarded_check(solver, timeout_ms):
-    """solver.check() under the solver's own timeout (the slow path goes through cli_check, which has a hard limit)"""
-    try:
-        return solver.check()
-    except z3.Z3Exception:
-        return z3.unknown
+def guarded_check(solver, timeout_ms, stage="inproc"):
+    """solver.check() under a resource limit (and the wall-clock safety net)"""
+    from . import budget
+    return budget.inproc_check(solver, timeout_ms, stage)
 
 
 def _subterms(e, acc, seen):
@@ -299,11 +315,10 @@ def pointwise_check(qf_hyps, qhyps, goal, axioms=(), timeout_ms=10000, rounds=1)
         done = False
         for maxdepth, tmo in LEVELS:
             s = z3.Solver()
-            s.set("timeout", min(timeout_ms, tmo or timeout_ms))
             insts = instantiate(qhyps_g, base, rounds=rounds, maxdepth=maxdepth)
             s.add(*base)
             s.add(*insts)
-            if cli_check(s, min(timeout_ms, tmo or timeout_ms))[0] == "unsat":
+            if cli_check(s, timeout_ms, stage=f"pointwise{rounds}.d{maxdepth}")[0] == "unsat":
                 done = True
                 break
         if not done:
